@@ -384,6 +384,8 @@ def build_sampling(chk):
                         c.assume(ir.gt(ir.uf('n_unique', [ir.var('w_%s' % l, 'U')], 'I'), 1))
                     m0 = I.call_qual(VINE, [vt], {})
                     I.call_method(m0, 'fit', [X0, 1])
+                    State.rng = ir.var('Ghist', 'U')                     # the earlier model was also sampled from
+                    I.call_method(m0, '_sample_row', [])
                 m = vine.fit_vine(I, c, d, vt, truncated=Sym(T), model=m0)
                 State.rng = G0
                 n_ev = len(c.events)
